@@ -106,7 +106,7 @@ def gen_cases(ctx):
         {"op": "history", "n0": 2, "steps": [{"k": "deepcopy", "m": "deepcopy", "r": 0}, {"k": "poke", "m": "nested", "r": 1, "pos": 0},
                                             {"k": "edit", "m": "modify", "r": 1, "arg": 0}, {"k": "use", "m": "pluck", "r": 0}]},
     ]
-    n = 300 if ctx.tier == "quick" else 6000
+    n = 300 if ctx.tier == "quick" else 2500      # (a thorough history has up to 30 calls and is observed after each: ~0.3 s)
     for _ in range(n):
         cases.append(gen_history(rng, ctx.tier))
     return cases
